@@ -217,6 +217,7 @@ fn cmd_run(args: &[String]) -> i32 {
     let first_program: u64 = arg(args, "--first-program").and_then(|s| s.parse().ok()).unwrap_or(0);
     let progress_dir = arg(args, "--progress-dir");
     if let Some(d) = &progress_dir {
+        std::fs::remove_dir_all(d).ok();
         std::fs::create_dir_all(d).ok();
     }
     let baseline_only = args.iter().any(|a| a == "--baseline-only");
@@ -238,7 +239,9 @@ fn cmd_run(args: &[String]) -> i32 {
 
     std::thread::scope(|sc| {
         for _ in 0..threads.max(1) {
-            sc.spawn(|| {
+            // same stack as the per-program threads, so that --baseline-only and exploration
+            // cannot differ by stack depth
+            std::thread::Builder::new().stack_size(16 << 20).spawn_scoped(sc, || {
                 silence_hooks_thread();
                 let my = wid.fetch_add(1, Ordering::Relaxed);
                 let mut progress = progress_dir.as_ref().and_then(|d| {
